@@ -16,7 +16,8 @@ CONSTANT MaxItems
 
 \* string literal contents: tag delimiters, #, backslashes, newlines, quotes, multi-byte are inert
 Contents == { <<"a">>, <<"PCT", ">">>, <<"<", "PCT">>, <<"<", "PCT", "=", " ", "1", " ", "PCT", ">">>, <<"HASH", " ", "x">>,
-              <<"BSL", "n">>, <<"NL", "b">>, <<"QUOT">>, <<"QUOT", "QUOT">>, <<"a", "QUOT", "b", "QUOT">>, <<"MB", "BQ">>, <<"LBR", "RBR">>, <<>> }
+              <<"BSL", "n">>, <<"NL", "b">>, <<"QUOT">>, <<"QUOT", "QUOT">>, <<"a", "QUOT", "b", "QUOT">>, <<"MB", "BQ">>, <<"LBR", "RBR">>, <<>>,
+              <<"c", "BSL">>, <<"BSL", "QUOT", "d">> }     \* only spellable between back quotes: raw, a backslash hides nothing
 \* a back-quoted literal cannot contain a back quote; a double-quoted one cannot end in a backslash
 \* or contain backslash-quote as two characters of its VALUE (no spelling exists)
 DQOK(s) == (s = <<>> \/ s[Len(s)] # "BSL") /\ \A i \in 1..(Len(s) - 1) : ~(s[i] = "BSL" /\ s[i + 1] = "QUOT")
